@@ -106,14 +106,10 @@ func ruleC11_6(c *Ctx) {
 	}
 	fn := fname(f)
 	n := 0
-	for _, dec := range allCalls(f) {
-		if calleeName(dec) != "(*encoding/json.Decoder).Decode" && calleeName(dec) != "encoding/json.Unmarshal" {
-			continue
-		}
-		args := callArgs(dec)
-		target := args[len(args)-1]
+	for _, sd := range c.strictDecodes(f) {
+		dec := sd.site
 		var al *ssa.Alloc
-		derives(target, func(v ssa.Value) bool {
+		derives(sd.target, func(v ssa.Value) bool {
 			if a, ok := v.(*ssa.Alloc); ok {
 				al = a
 				return true
